@@ -99,7 +99,7 @@ def confirm(chk, replay_case, times=3):
 
 def run_module_check(pid, level, rule, worker, replay_case, argv, n_modules, n_values, assumptions=(),
                      cfg_kw=None, min_evaluations=None, min_nontrivial=None, module_strategy=None,
-                     variants=("asan",), extra_worker_args=()):
+                     variants=("asan",), extra_worker_args=(), extra_modules=()):
     a = parse_args(argv)
     if a.replay:
         build.warm(variants)
@@ -113,6 +113,7 @@ def run_module_check(pid, level, rule, worker, replay_case, argv, n_modules, n_v
     regression_and_probes(chk, replay_case)
     cfg = gen.Cfg(**cfg_kw)
     mods = pipeline.draw_modules(chk.seed, nm, cfg, module_strategy(cfg) if module_strategy else None)
+    mods = list(extra_modules) + mods
     args = [(m.to_json(), chk.seed * 7919 + i, nv, cfg_kw) + tuple(extra_worker_args) for i, m in enumerate(mods)]
     results = run_pool(worker, args, a.workers)
     for kind, r in results:
